@@ -266,37 +266,39 @@ Qed.
 
 (* ---------------------------------------------------------------- whole expressions *)
 Scheme expr_mind := Induction for expr Sort Prop
-  with gens_mind := Induction for gens Sort Prop.
-Combined Scheme expr_gens_ind from expr_mind, gens_mind.
+  with gens_mind := Induction for gens Sort Prop
+  with target_mind := Induction for target Sort Prop.
+Combined Scheme expr_gens_ind from expr_mind, gens_mind, target_mind.
 
 (* unfolding equations of the two traversals *)
 Section Equations.
   Variable A : Type.
   Variable v : variant.
   Variable gl : chain -> bool -> list string -> string -> A.
+  Variable collect : target -> list string.
   Variable pl : bool -> list string -> string -> A.
-  Lemma g_walk_name : forall c nested loc n, g_walk A v gl c nested loc (XName n) = [gl c nested loc n].
+  Lemma g_walk_name : forall c nested loc n, g_walk A v gl collect c nested loc (XName n) = [gl c nested loc n].
   Proof. reflexivity. Qed.
   Lemma g_walk_seq : forall c nested loc a b,
-    g_walk A v gl c nested loc (XSeq a b) = g_walk A v gl c nested loc a ++ g_walk A v gl c nested loc b.
+    g_walk A v gl collect c nested loc (XSeq a b) = g_walk A v gl collect c nested loc a ++ g_walk A v gl collect c nested loc b.
   Proof. reflexivity. Qed.
   Lemma g_walk_lambda : forall c nested loc ps d body,
-    g_walk A v gl c nested loc (XLambda ps d body) = g_walk A v gl c nested loc d ++ g_walk A v gl (fscope v c) true (ps ++ loc) body.
+    g_walk A v gl collect c nested loc (XLambda ps d body) = g_walk A v gl collect c nested loc d ++ g_walk A v gl collect (fscope v c) true (ps ++ loc) body.
   Proof. reflexivity. Qed.
   Lemma g_walk_comp : forall c nested loc elt g,
-    g_walk A v gl c nested loc (XComp elt g) =
-    g_walk A v gl (fscope v c) true (gens_targets g ++ loc) elt ++ g_gens A v gl c nested loc (fscope v c) (gens_targets g ++ loc) true g.
+    g_walk A v gl collect c nested loc (XComp elt g) =
+    g_walk A v gl collect (fscope v c) true (targets_with collect g ++ loc) elt ++ g_gens A v gl collect c nested loc (fscope v c) (targets_with collect g ++ loc) true g.
   Proof. reflexivity. Qed.
-  Lemma g_walk_str : forall c nested loc e, g_walk A v gl c nested loc (XStr e) = g_walk A v gl c nested loc e.
+  Lemma g_walk_str : forall c nested loc e, g_walk A v gl collect c nested loc (XStr e) = g_walk A v gl collect c nested loc e.
   Proof. reflexivity. Qed.
   Lemma g_gens_one : forall c nested loc ci inner first ts it cs,
-    g_gens A v gl c nested loc ci inner first (GOne ts it cs) =
-    map (gl ci true inner) ts ++ (if first then g_walk A v gl c nested loc it else g_walk A v gl ci true inner it) ++ g_walk A v gl ci true inner cs.
+    g_gens A v gl collect c nested loc ci inner first (GOne ts it cs) =
+    map (gl ci true inner) (tnames ts) ++ (if first then g_walk A v gl collect c nested loc it else g_walk A v gl collect ci true inner it) ++ g_walk A v gl collect ci true inner cs.
   Proof. reflexivity. Qed.
   Lemma g_gens_cons : forall c nested loc ci inner first ts it cs more,
-    g_gens A v gl c nested loc ci inner first (GCons ts it cs more) =
-    map (gl ci true inner) ts ++ (if first then g_walk A v gl c nested loc it else g_walk A v gl ci true inner it) ++ g_walk A v gl ci true inner cs
-    ++ g_gens A v gl c nested loc ci inner false more.
+    g_gens A v gl collect c nested loc ci inner first (GCons ts it cs more) =
+    map (gl ci true inner) (tnames ts) ++ (if first then g_walk A v gl collect c nested loc it else g_walk A v gl collect ci true inner it) ++ g_walk A v gl collect ci true inner cs
+    ++ g_gens A v gl collect c nested loc ci inner false more.
   Proof. reflexivity. Qed.
   Lemma p_walk_name : forall nested loc n, p_walk A pl nested loc (XName n) = [pl nested loc n].
   Proof. reflexivity. Qed.
@@ -313,11 +315,11 @@ Section Equations.
   Proof. reflexivity. Qed.
   Lemma p_gens_one : forall nested loc inner first ts it cs,
     p_gens A pl nested loc inner first (GOne ts it cs) =
-    map (pl true inner) ts ++ (if first then p_walk A pl nested loc it else p_walk A pl true inner it) ++ p_walk A pl true inner cs.
+    map (pl true inner) (tnames ts) ++ (if first then p_walk A pl nested loc it else p_walk A pl true inner it) ++ p_walk A pl true inner cs.
   Proof. reflexivity. Qed.
   Lemma p_gens_cons : forall nested loc inner first ts it cs more,
     p_gens A pl nested loc inner first (GCons ts it cs more) =
-    map (pl true inner) ts ++ (if first then p_walk A pl nested loc it else p_walk A pl true inner it) ++ p_walk A pl true inner cs
+    map (pl true inner) (tnames ts) ++ (if first then p_walk A pl nested loc it else p_walk A pl true inner it) ++ p_walk A pl true inner cs
     ++ p_gens A pl nested loc inner false more.
   Proof. reflexivity. Qed.
 End Equations.
@@ -338,14 +340,15 @@ Qed.
 
 Lemma walk_agree : forall v c, wf_chain c = true ->
   (forall e c' nested loc, rel v c c' nested ->
-     existsb (fun b => b) (g_walk bool v (g_gap v) c' nested loc e) = false ->
-     g_walk string v (g_canon v) c' nested loc e = p_walk string (p_canon c) nested loc e)
+     existsb (fun b => b) (g_walk bool v (g_gap v) tnames c' nested loc e) = false ->
+     g_walk string v (g_canon v) tnames c' nested loc e = p_walk string (p_canon c) nested loc e)
   /\
   (forall g c' nested loc ci inner first, rel v c c' nested -> rel v c ci true ->
-     existsb (fun b => b) (g_gens bool v (g_gap v) c' nested loc ci inner first g) = false ->
-     g_gens string v (g_canon v) c' nested loc ci inner first g = p_gens string (p_canon c) nested loc inner first g).
+     existsb (fun b => b) (g_gens bool v (g_gap v) tnames c' nested loc ci inner first g) = false ->
+     g_gens string v (g_canon v) tnames c' nested loc ci inner first g = p_gens string (p_canon c) nested loc inner first g)
+  /\ (forall t : target, True).
 Proof.
-  intros v c Hwf. apply expr_gens_ind.
+  intros v c Hwf. apply expr_gens_ind; try (intros; exact I).
   - reflexivity.
   - intros n c' nested loc R H. rewrite g_walk_name in *. rewrite p_walk_name. simpl in H. rewrite orb_false_r in H.
     now rewrite (occ_agree v c c' nested loc n Hwf R H).
@@ -353,16 +356,16 @@ Proof.
     now rewrite (IHa _ _ _ R H1), (IHb _ _ _ R H2).
   - intros ps d IHd body IHb c' nested loc R H. rewrite g_walk_lambda in *. rewrite p_walk_lambda. apply existsb_app_false in H as [H1 H2].
     rewrite (IHd _ _ _ R H1). now rewrite (IHb _ _ _ (rel_fscope _ _ _ _ R) H2).
-  - intros elt IHe g IHg c' nested loc R H. rewrite g_walk_comp in *. rewrite p_walk_comp. apply existsb_app_false in H as [H1 H2].
+  - intros elt IHe g IHg c' nested loc R H. rewrite g_walk_comp in *. rewrite p_walk_comp. unfold gens_targets in *. apply existsb_app_false in H as [H1 H2].
     rewrite (IHe _ _ _ (rel_fscope _ _ _ _ R) H1). now rewrite (IHg _ _ _ _ _ _ R (rel_fscope _ _ _ _ R) H2).
   - intros e IH c' nested loc R H. rewrite g_walk_str in *. rewrite p_walk_str. now apply IH.
-  - intros ts it IHi cs IHc c' nested loc ci inner first R Ri H. rewrite g_gens_one in *. rewrite p_gens_one.
+  - intros t _ it IHi cs IHc c' nested loc ci inner first R Ri H. rewrite g_gens_one in *. rewrite p_gens_one.
     apply existsb_app_false in H as [H1 H2]. apply existsb_app_false in H2 as [H2 H3].
-    rewrite (map_occ_agree v c ci inner ts Hwf Ri H1). rewrite (IHc _ _ _ Ri H3).
+    rewrite (map_occ_agree v c ci inner (tnames t) Hwf Ri H1). rewrite (IHc _ _ _ Ri H3).
     destruct first; [now rewrite (IHi _ _ _ R H2) | now rewrite (IHi _ _ _ Ri H2)].
-  - intros ts it IHi cs IHc more IHm c' nested loc ci inner first R Ri H. rewrite g_gens_cons in *. rewrite p_gens_cons.
+  - intros t _ it IHi cs IHc more IHm c' nested loc ci inner first R Ri H. rewrite g_gens_cons in *. rewrite p_gens_cons.
     apply existsb_app_false in H as [H1 H2]. apply existsb_app_false in H2 as [H2 H3]. apply existsb_app_false in H3 as [H3 H4].
-    rewrite (map_occ_agree v c ci inner ts Hwf Ri H1). rewrite (IHc _ _ _ Ri H3). rewrite (IHm _ _ _ _ _ _ R Ri H4).
+    rewrite (map_occ_agree v c ci inner (tnames t) Hwf Ri H1). rewrite (IHc _ _ _ Ri H3). rewrite (IHm _ _ _ _ _ _ R Ri H4).
     destruct first; [now rewrite (IHi _ _ _ R H2) | now rewrite (IHi _ _ _ Ri H2)].
 Qed.
 
@@ -385,10 +388,11 @@ Qed.
 (* the gap predicate never fires for the repaired code on class / module chains *)
 Lemma walk_no_gap : forall c, wf_chain c = true -> no_functions c = true ->
   (forall e c' nested loc, rel v_fixed c c' nested ->
-     existsb (fun b => b) (g_walk bool v_fixed (g_gap v_fixed) c' nested loc e) = false)
+     existsb (fun b => b) (g_walk bool v_fixed (g_gap v_fixed) tnames c' nested loc e) = false)
   /\
   (forall g c' nested loc ci inner first, rel v_fixed c c' nested -> rel v_fixed c ci true ->
-     existsb (fun b => b) (g_gens bool v_fixed (g_gap v_fixed) c' nested loc ci inner first g) = false).
+     existsb (fun b => b) (g_gens bool v_fixed (g_gap v_fixed) tnames c' nested loc ci inner first g) = false)
+  /\ (forall t : target, True).
 Proof.
   intros c Hwf Hnf.
   assert (OCC : forall c' nested loc n, rel v_fixed c c' nested -> g_gap v_fixed c' nested loc n = false).
@@ -401,7 +405,7 @@ Proof.
       + now apply no_functions_skip.
       + right. right. rewrite ES. unfold is_module in Mg. unfold is_class. destruct (fkind g); [reflexivity | discriminate | discriminate].
     - apply no_leak_class_chains; auto. }
-  apply expr_gens_ind.
+  apply expr_gens_ind; try (intros; exact I).
   - reflexivity.
   - intros n c' nested loc R. rewrite g_walk_name. simpl. rewrite orb_false_r. now apply OCC.
   - intros a IHa b IHb c' nested loc R. rewrite g_walk_seq. rewrite existsb_app. now rewrite IHa, IHb.
@@ -411,15 +415,15 @@ Proof.
     rewrite IHe by (now apply (rel_fscope v_fixed c c' nested)).
     now rewrite IHg by (auto; now apply (rel_fscope v_fixed c c' nested)).
   - intros e IH c' nested loc R. rewrite g_walk_str. now apply IH.
-  - intros ts it IHi cs IHc c' nested loc ci inner first R Ri. rewrite g_gens_one. rewrite !existsb_app.
+  - intros t _ it IHi cs IHc c' nested loc ci inner first R Ri. rewrite g_gens_one. rewrite !existsb_app.
     rewrite IHc by exact Ri.
-    assert (M : existsb (fun b => b) (map (g_gap v_fixed ci true inner) ts) = false).
-    { induction ts as [|t r IHt]; [reflexivity|]. simpl. rewrite (OCC ci true inner t Ri). exact IHt. }
+    assert (M : existsb (fun b => b) (map (g_gap v_fixed ci true inner) (tnames t)) = false).
+    { induction (tnames t) as [|t0 r0 IHt]; [reflexivity|]. simpl. rewrite (OCC ci true inner t0 Ri). exact IHt. }
     rewrite M. destruct first; [now rewrite IHi by exact R | now rewrite IHi by exact Ri].
-  - intros ts it IHi cs IHc more IHm c' nested loc ci inner first R Ri. rewrite g_gens_cons. rewrite !existsb_app.
+  - intros t _ it IHi cs IHc more IHm c' nested loc ci inner first R Ri. rewrite g_gens_cons. rewrite !existsb_app.
     rewrite IHc by exact Ri. rewrite IHm by auto.
-    assert (M : existsb (fun b => b) (map (g_gap v_fixed ci true inner) ts) = false).
-    { induction ts as [|t r IHt]; [reflexivity|]. simpl. rewrite (OCC ci true inner t Ri). exact IHt. }
+    assert (M : existsb (fun b => b) (map (g_gap v_fixed ci true inner) (tnames t)) = false).
+    { induction (tnames t) as [|t0 r0 IHt]; [reflexivity|]. simpl. rewrite (OCC ci true inner t0 Ri). exact IHt. }
     rewrite M. destruct first; [now rewrite IHi by exact R | now rewrite IHi by exact Ri].
 Qed.
 
@@ -434,9 +438,9 @@ Qed.
 
 (* witnesses: a class body with a lambda, a comprehension and a string annotation *)
 Definition x_lam := XLambda ["q"] (XName "x") (XSeq (XName "x") (XName "q")).                      (* lambda q=x: (x, q) *)
-Definition x_comp := XComp (XSeq (XName "x") (XName "y")) (GCons ["y"] (XName "x") XConst (GOne ["x"] (XName "y") (XName "x"))).
+Definition x_comp := XComp (XSeq (XName "x") (XName "y")) (GCons (TName "y") (XName "x") XConst (GOne (TName "x") (XName "y") (XName "x"))).
                                                                                                     (* [(x, y) for y in x for x in y if x] *)
-Definition x_free := XComp (XName "x") (GOne ["k"] (XName "x") XConst).                             (* [x for k in x] *)
+Definition x_free := XComp (XName "x") (GOne (TName "k") (XName "x") XConst).                             (* [x for k in x] *)
 Definition c_A := [w_A; w_m].
 
 Example expr_values :
@@ -714,4 +718,17 @@ Example nonlocal_values :
   wf_chain [w_L; w_init2; w_A2; w_m] = true
   /\ resolve_v true false [w_L; w_init2; w_A2; w_m] "p" = Some "m.A(p)" /\ py_lookup_decl DNonlocal [w_L; w_init2; w_A2; w_m] "p" = Some "m.A(p)"
   /\ py_lookup_decl DNonlocal [w_L; w_init2; w_A2; w_m] "x" = None.
+Proof. vm_compute. repeat split. Qed.
+
+(* ---------------------------------------------------------------- starred targets *)
+(* [x for (k, *x) in y] at module level: the starred name is local to the comprehension.  A collection of the local names that
+   descends into tuples and lists only and forgets Starred (seeded change C04-m7) resolves it to the module's x. *)
+Definition x_star := XComp (XName "x") (GOne (TPair (TName "k") (TStar (TName "x"))) (XName "y") XConst).
+Lemma starred_targets_needed :
+  exists c e, wf_chain c = true /\ no_functions c = true /\ g_names_with tnames_nostar v_fixed c e <> p_names c e
+              /\ g_names v_fixed c e = p_names c e.
+Proof. exists [w_m], x_star. repeat split; try reflexivity. vm_compute. discriminate. Qed.
+Example starred_values :
+  p_names [w_m] x_star = ["x"; "k"; "x"; "y"] /\ g_names_with tnames_nostar v_fixed [w_m] x_star = ["m.x"; "k"; "m.x"; "y"]
+  /\ tnames (TPair (TName "a") (TPair (TStar (TName "b")) (TPair (TName "c") TNil))) = ["a"; "b"; "c"].
 Proof. vm_compute. repeat split. Qed.
